@@ -529,6 +529,26 @@ theorem builder_never_reads_stale (s : Slot) (h : s.WF) :
   rw [balanceMatch_any_eq_live s h] at hs'
   exact wf_balanceMatch h hs'
 
+/-- **Captures are added with non-negative start and length.**  `Capture` orders its interval before
+    calling `addMatch`; `transferCapture` (balancing groups) records one of three intervals derived from
+    the group's text `[start, end)` and the cancelled capture `[start2, end2)`: in every case start and
+    length are non-negative, which is what `builder_never_reads_stale` needs so that a capture is never
+    mistaken for a balancing reference. -/
+theorem transfer_interval_nonneg (start end_ start2 end2 : Int) (h1 : 0 ≤ start) (h2 : start ≤ end_)
+    (h3 : 0 ≤ start2) (h4 : start2 ≤ end2) :
+    0 ≤ (transferInterval start end_ start2 end2).1 ∧ 0 ≤ (transferInterval start end_ start2 end2).2 := by
+  unfold transferInterval
+  split
+  · constructor <;> simp <;> omega
+  · split
+    · constructor <;> simp <;> omega
+    · simp only
+      constructor
+      · split <;> omega
+      · split <;> split <;> omega
+
+example : transferInterval 5 7 1 3 = (3, 2) ∧ transferInterval 1 2 5 9 = (2, 3) ∧ transferInterval 2 8 4 6 = (4, 2) := by decide
+
 /-- non-vacuity: a recycled slot (count 0, stale cells 5 9 -3 -4 from an earlier balancing match) and a
     fresh one agree after the same operations: capture (2,3), capture (7,1), balance, and then report
     the same index/length and compact to the same live cells; the stale cells are never visible. -/
